@@ -1494,11 +1494,13 @@ def _get_resources_by_hrefs(
     Returns: iterator over (href, resource) tuples
     """
     paths: dict[str, str] = {}
+    unmapped = set()
     for href in hrefs:
         path = href_to_path(environ, href)
         if path is not None:
             paths[path] = href
-        else:
+        elif href not in unmapped:
+            unmapped.add(href)
             yield (href, None)
 
     for relpath, resource in backend.get_resources(paths):
